@@ -36,6 +36,17 @@ CHECKS = {
             'calc_kM compared with the kinetic-energy Hessian; the coupling sign is decided by a package-only metamorphic '
             'relation; the kernel defect R1 is matched by a signature predicate and everything else stays armed',
             'trusts vlib/ref/panel.py; sign convention taken from the laminate code (mid-plane at z=+offset)', '3 C04'),
+    'C05': ('generated random symmetric pencils (seed-expanded) and package (k0,kG0) pairs; oracles: backward-error residual, '
+            'dense Cholesky-reduced reference spectrum, sparse-vs-dense differential, load-scaling metamorphic relation',
+            'generated-input search over sizes 5..400, null rows/columns, definite/rank-deficient/indefinite KG, k=1..25 and both '
+            'solver paths; every returned pair is checked against (K + lambda KG) v = 0 and, under the stated precondition, '
+            'against the k smallest positive multipliers of an independent dense solution',
+            'trusts numpy/scipy dense eigen-solvers as reference; ARPACK start vectors are pinned (vlib/determinism.py)', '3 C05'),
+    'C06': ('generated random SPD pencils with clustered spectra and package (k0,kM) pairs; oracles: residual, dense reference '
+            'spectrum, sparse-vs-dense differential, mass-scaling relation, reduced-dof sub-problem',
+            'generated-input search over sizes 6..400, null rows/columns, clusters closer than the old rounding granularity, '
+            'sort on/off, reduced_dof on/off, k=1..25, both paths, through analysis.freq and Panel.freq',
+            'trusts numpy/scipy dense eigen-solvers as reference; ARPACK start vectors are pinned', '3 C06'),
     'C08': ('Hypothesis-generated states; differential oracle (reference fint/kT at the same Gauss points) + package-only '
             'oracles: Richardson finite difference of fint (exact for the cubic fint), closed-path work, small-state limit',
             'generated-input search over plate/cpanel x B-coupled laminates x flags x states up to 5h x Gauss orders x laminate '
